@@ -99,8 +99,16 @@ func (r *Recorder) Reset() {
 }
 
 // Readers / Writers return everything handed out since the last Reset.
-func (r *Recorder) Readers() []*Reader { r.mu.Lock(); defer r.mu.Unlock(); return append([]*Reader(nil), r.readers...) }
-func (r *Recorder) Writers() []*Writer { r.mu.Lock(); defer r.mu.Unlock(); return append([]*Writer(nil), r.writers...) }
+func (r *Recorder) Readers() []*Reader {
+	r.mu.Lock()
+	defer r.mu.Unlock()
+	return append([]*Reader(nil), r.readers...)
+}
+func (r *Recorder) Writers() []*Writer {
+	r.mu.Lock()
+	defer r.mu.Unlock()
+	return append([]*Writer(nil), r.writers...)
+}
 
 type Reader struct {
 	ociregistry.BlobReader
